@@ -378,6 +378,20 @@ class lodict(odict):
 
         super(lodict, self).create(d)
 
+    def reorder(self, other):
+        """
+        Make keys lowercase then reorder based on the `other` odict.
+        Raises ValueError if other is not an odict
+        """
+        if not isinstance(other, odict):
+            raise ValueError('other must be an odict')
+
+        d = odict()
+        for k in other:
+            d[k.lower()] = other[k]
+
+        super(lodict, self).reorder(d)
+
     def sift(self, fields=None):
         """
         Make field names lowercase then sift
